@@ -23,7 +23,8 @@ def main(tier):
             if rec["exit"] == "undecided" or rec.get("class") != "possible":
                 continue
             npos += 1
-            okexit = rec["exit"] == "return"
+            val = rec.get("value") or ""
+            okexit = rec["exit"] == "return" and (val == "Ok(())" if entry.startswith("checked_") else (val == "()" if entry == "detach" else val.startswith("NodeId")))
             got = "panic %s" % e2props.panic_kind(rec.get("msg")) if rec["exit"] == "panic" else rec.get("value")
             run.ob("succeeds", "%s/%s: possible request returns" % (entry, prof), okexit,
                    key="%s|possible request does not succeed: %s" % (entry, got), detail=e2props.detail_of(rec), loc=rec.get("at"),
